@@ -211,7 +211,7 @@ def exec (a : List String) : String :=
         let docsB := (docs.splitOn ",").map hexB
         let step (acc : Bytes × Nat × Bool × Bool) (d : Bytes) : Bytes × Nat × Bool × Bool :=
           let (out, rc, ok, srt) := acc
-          match read d with
+          match readSrc d with
           | .error _ => (out, 2, false, srt)
           | .ok v =>
             if !v.wf then (out, rc, false, srt) else
